@@ -3,6 +3,10 @@
 import json, os, subprocess
 CLAIMED = {
  # id: (level text, level_note, design_ref)
+ "C16": ("Proof (WP over go/ssa + SMT), for all catalogue states, of the listed contracts in meta: a new shard group is aligned to the policy's group duration, contains the timestamp, is clamped to MaxNanoTime+1 and gets a fresh id (counter +1); CreateShardGroup validates before it allocates and leaves every id counter unchanged on an error return; the database default policy exists after SetDefaultRetentionPolicy / DropRetentionPolicy; catalogue lookups (GetDatabase/RetentionPolicy) return live objects only; the shard-group sort order is the (effective end, start) strict order.",
+         "Not decided: disjointness after ShardGroupDuration changes, createShards/CreateIndexGroup id ranges, uncontracted commands (~60 apply handlers), node/PtView maintenance. Truncate modelled by its defining property (largest multiple <= t).", "DESIGN.md §5 C16"),
+ "C19": ("Proof (WP over go/ssa + SMT), for all requests/paths, that the authentication wrapper fails closed (the wrapped handler is reached with a non-nil, error-free user whenever authentication is required and an admin exists; bearer tokens are only verified against a non-empty shared secret; ParseCredentials returns only the two supported methods, which makes the no-return default branch unreachable), that AuthorizeDatabase is exactly per database, and that AuthorizeQuery checks every required privilege against the database the statement names and returns an error on any denial.",
+         "Assumed: MetaClient.Authenticate returns a non-nil user with a nil error; JWT library; RequiredPrivileges table. Not decided: route table coverage (AddRoutes), per-handler authorizer calls, /debug endpoints.", "DESIGN.md §5 C19"),
  "C11": ("Proof (WP over go/ssa + SMT), for all inputs, of the shard routing kernels in meta: group time predicates (Contains/Overlaps/Deleted/Truncated), hash shard choice (ShardFor), range shard choice (DestShard: first containing shard, nil iff none), group lookup by timestamp (live, right engine, contains t; nil iff none), and completeness of ShardGroupsByTimeRange (every live overlapping group is returned), plus the lemma contains => overlaps.",
          "Not decided: byte equality of write-side and read-side shard keys, getConditionTags/TargetShards pruning (in progress), coordinator routing. Library models for time.Time (ns as mathematical Int).", "DESIGN.md §5 C11"),
  "C14": ("Proof (WP over go/ssa + SMT) of every expiry predicate for all clock readings/durations (shard.IsExpired, IsTierExpired, nilShardIsExpired == dur!=0 && end+dur<now), the guard obligations of ExpiredShards (an identifier is appended only after the expiry test of the same shard answered true), the retention service protocol (deletion pass only after both duration refreshes returned nil in the same tick; deletes/prunes only ids reported expired), and the catalogue side (ExpiredShardGroups reports only live groups with end+Duration<t; duration validation).",
